@@ -16,7 +16,7 @@ import tempfile
 import time
 
 VERIF = os.path.dirname(os.path.dirname(os.path.abspath(__file__)))
-REPO = os.environ.get("CB_REPO", "/repo")
+REPO = os.environ.get("CB_REPO", "/repo")     # CB_REPO: validate a check against a scratch copy (mutants)
 CACHE = os.path.join(VERIF, ".cache")
 COQ = os.path.join(VERIF, "coq")
 BIN = os.path.join(VERIF, "bin")
@@ -102,7 +102,7 @@ def _prune_cache(keep):
     if not os.path.isdir(d):
         return
     ents = sorted((os.path.getmtime(os.path.join(d, e)), e) for e in os.listdir(d))
-    for _, e in ents[:-6]:
+    for _, e in ents[:-30]:
         if e != keep:
             shutil.rmtree(os.path.join(d, e), ignore_errors=True)
 
@@ -171,7 +171,7 @@ def build_leaf(name, sources, extra_flags=""):
         # prune old leaf dirs
         d = os.path.join(CACHE, "leaf")
         ents = sorted((os.path.getmtime(os.path.join(d, x)), x) for x in os.listdir(d))
-        for _, x in ents[:-4]:
+        for _, x in ents[:-30]:
             if x != th:
                 shutil.rmtree(os.path.join(d, x), ignore_errors=True)
     return out
@@ -245,8 +245,8 @@ def coq_forbidden_scan():
 def coq_make(targets, timeout=1500):
     """(Re)build the given .vo targets (relative to coq/) with the project Makefile."""
     with Lock("coq"):
-        if not os.path.exists(os.path.join(COQ, "Makefile")):
-            rc, o, e = sh(["bash", os.path.join(VERIF, "harness", "setup.sh"), "coq-makefile"], timeout=120)
+        env = dict(os.environ, CBV_LOCKED="1")
+        sh(["bash", os.path.join(VERIF, "harness", "setup.sh"), "coq-makefile"], timeout=120, env=env)
         rc, o, e = sh(["make", "-k", "-j%d" % NCPU] + list(targets), cwd=COQ, timeout=timeout)
     return rc, o + e
 
@@ -326,11 +326,11 @@ def run_model(prop, subcmd, lines, timeout=600):
 # ----------------------------------------------------------------------------------------------
 
 def known_findings(prop):
-    p = os.path.join(VERIF, "known_findings.json")
+    p = os.path.join(VERIF, "known_findings", prop + ".json")
     if not os.path.exists(p):
         return []
     data = json.load(open(p))
-    return [f for f in data.get("findings", []) if f.get("property") == prop]
+    return [f for f in data.get("findings", []) if f.get("property", prop) == prop]
 
 
 class Report:
